@@ -286,6 +286,7 @@ func Run(j *job.Job, s *job.Sink) {
 			}
 			targeted[t.name] = true
 			path := t.devPath()
+			again := ""
 			fmt.Fprintf(devText, "  deviation %s {\n", path)
 			cur := exp[t.name]
 			k := 1 + r.Intn(3)
@@ -306,6 +307,13 @@ func Run(j *job.Job, s *job.Sink) {
 					fmt.Fprintf(devText, "    deviate not-supported;\n")
 					if !ignoreNS {
 						cur.removed = true
+						if wantErr == "" && r.Intn(3) == 0 {
+							// the same module deviates the node once more further down: by then it
+							// is gone (deviations are applied in written order), so this one has
+							// no target
+							again = fmt.Sprintf("  deviation %s { %s }\n", path, []string{"deviate replace { config true; }", "deviate not-supported;", "deviate add { default again; }"}[r.Intn(3)])
+							wantErr = "missing-target"
+						}
 					}
 					break
 				}
@@ -341,6 +349,9 @@ func Run(j *job.Job, s *job.Sink) {
 							continue
 						}
 						v := fmt.Sprintf("x%d%d", i, j)
+						if r.Intn(8) == 0 {
+							v = "" // the empty string is a default value like any other
+						}
 						switch dk {
 						case "add":
 							fmt.Fprintf(devText, " default %q;", v)
@@ -370,6 +381,9 @@ func Run(j *job.Job, s *job.Sink) {
 									wantErr = "delete-default-absent"
 								}
 							case r.Intn(3) == 0:
+								if v == cur.defaults[0] {
+									v = "zzdifferent"
+								}
 								fmt.Fprintf(devText, " default %q;", v)
 								if wantErr == "" {
 									wantErr = "delete-default-different"
@@ -487,6 +501,10 @@ func Run(j *job.Job, s *job.Sink) {
 				devText.WriteString(" }\n")
 			}
 			devText.WriteString("  }\n")
+			if again != "" {
+				devText.WriteString(again)
+				again = ""
+			}
 		}
 		for mi := range texts {
 			texts[mi].WriteString("}\n")
